@@ -480,6 +480,32 @@ def c09_template_id_arguments(use: int, role: int, how: int) -> bool:
     return ok
 
 
+def c09_lookalike_parameters(r: int, a: int, role: int) -> bool:
+    """
+    Two parameters of one signature whose types differ only INSIDE a template argument (`std::vector<T*> a, std::vector<const T> b`):
+    the wrapper lambda declares each with its own C++ type — a lambda that repeats the first type for both does not match
+    the declared member and does not compile.  (the type algebra and oracle of c04_all_type_spellings)
+    pre: 0 <= r < 48 and 0 <= a < 128 and 0 <= role <= 2
+    pre: r % (4 if THOROUGH else 16) == (a + 5) % (4 if THOROUGH else 16)
+    post: _
+    """
+    from harness import c04
+    r, a = pick(r, 0, 48), pick(a, 0, 128)
+    role = pick(role, 0, 3) if THOROUGH else (a + r) % 3
+    with concrete():
+        saved = c04.THOROUGH
+        c04.THOROUGH = True                    # the role is chosen here, not derived there
+        try:
+            ok = c04.c04_all_type_spellings(1, r, a, role)
+        finally:
+            c04.THOROUGH = saved
+        if not ok:
+            global LAST_FAILURE
+            LAST_FAILURE = c04.LAST_FAILURE
+    reached({"r": r, "a": a, "role": role} if not ok else None)
+    return ok
+
+
 def c09_second_unit(a: int, b: int, boost: int, top: int) -> bool:
     """
     One wrapper object producing two translation units in a row (as `wrap()` does for main + sub-modules): the SECOND
@@ -530,6 +556,8 @@ def conds(tier):
                 bounds="128 subsets of 7 classes on the ignore list x %s" % ("3 spellings" if not q else "spelling derived (shifted against C03's derivation)")),
         xh.Cond(M, "c09_template_id_arguments", t(200, 600), kind=sb, examples=["use=0, role=1, how=0", "use=3, role=2, how=1", "use=6, role=0, how=0", "use=1, role=4, how=1"],
                 bounds="%d uses of a parameter instantiated with a template-id x 5 member roles x {instantiation list, typedef}" % len(TID_USES)),
+        xh.Cond(M, "c09_lookalike_parameters", t(300, 1800), kind=sb, path_timeout=60, examples=["r=11, a=22, role=0", "r=0, a=11, role=1", "r=47, a=26, role=2"],
+                bounds="%s (root, leaf) pairs of the C01 type algebra, first parameter and its look-alike twin, method | static | function" % ("every fourth" if not q else "every sixteenth")),
         xh.Cond(M, "c09_second_unit", t(200, 600), kind=sb, examples=["a=0, b=1, boost=0, top=0", "a=3, b=0, boost=1, top=1", "a=2, b=2, boost=0, top=2"],
                 bounds="%d x %d texts with overlapping namespace names wrapped in sequence by one wrapper x serialization x 3 top namespaces" % (NUT, NUT)),
         xh.Cond(M, "c09_variables", t(300, 900), kind=sb, examples=["d=1, t=0, depth=1, topdepth=0", "d=3, t=2, depth=3, topdepth=2", "d=0, t=4, depth=2, topdepth=1"],
